@@ -5,13 +5,16 @@
    OP 4 RESUMECC: re-entering restores the captured words and registers and delivers the value.
    OP 5 sexp_grow_stack: contents preserved, limit respected.
    OP 7 make_call (the shared tail of CALL / TAIL_CALL / APPLY1 / CALLCC): applicability, arity, rest list,
-        frame header. */
+        frame header.
+   OP 8 the slot index the compiler computes for a variable (sexp_param_index of eval.c) against the frame
+        make_call builds and the slot LOCAL_REF / LOCAL_SET touch. */
 #include "kit.h"
 #include "kitfull.h"
 enum { VM_EXIT_NEXT = 1, VM_EXIT_LOOP, VM_EXIT_ERROR, VM_EXIT_END, VM_EXIT_MAKE_CALL, VM_EXIT_APPLY1, VM_EXIT_CHECK_TYPE };
 #define DECL(op) int vm_slice_##op(sexp ctx, sexp *self_io, sexp *stack, sexp_sint_t *top_io, sexp_sint_t *fp_io, unsigned char **ip_io, sexp *cp_io, sexp *bc_io, sexp *tmp1_io, sexp_sint_t *i_io);
 KIT_C_BEGIN
-DECL(TAIL_CALL) DECL(RET) DECL(CALLCC) DECL(RESUMECC) DECL(LABEL_make_call)
+DECL(TAIL_CALL) DECL(RET) DECL(CALLCC) DECL(RESUMECC) DECL(LABEL_make_call) DECL(LOCAL_REF) DECL(LOCAL_SET)
+int sexp_param_index (sexp ctx, sexp lambda, sexp name);
 int vm_export_grow_stack(sexp ctx, int min_size);
 KIT_C_END
 
@@ -42,6 +45,9 @@ void harness(void) {
   sexp self = cur, cp = SEXP_FALSE, bc = callee_bc, tmp1 = SEXP_FALSE;
   sexp_sint_t top, fp, iout = -1;
   unsigned char *ip;
+#if OP == 8
+#define OP7_BODY 1
+#endif
 #if OP == 1 || OP == 2
   /* current frame: base words, j arguments, frame header, nloc locals */
   sexp_sint_t base = 2, j = nondet_sword(), nloc = nondet_sword(), prev_fp = nondet_sword(), retoff = nondet_sword();
@@ -112,7 +118,7 @@ void harness(void) {
   for (int q = 0; q < 5; q++) if (q < T - 1) KIT_ASSERT(stack[q] == MARK(q), "the stack contents captured by the continuation are restored");
   KIT_ASSERT(fp == cfp && self == cur && bc == callee_bc && ip == sexp_bytecode_data(callee_bc) + ipoff, "registers of the capturing point are restored");
 #endif
-#elif OP == 7
+#elif OP == 7 || OP == 8
   /* callee: NA fixed parameters, variadic or not, rest parameter used or not (per query); i actual arguments (free, 0..3).
      Stack: BASE marker words, the i arguments (first argument highest), the callee on top. */
   sexp callee = mk_proc(callee_bc, kit_vector(1));
@@ -121,6 +127,9 @@ void harness(void) {
   sexp_bytecode_max_depth(callee_bc) = 8;
   sexp arg[3] = { kit_flonum(1.0), kit_flonum(2.0), kit_flonum(3.0) };
   sexp_sint_t base = 3, i = nondet_sword(), fp0 = nondet_sword(), ipoff = nondet_sword();
+#if OP == 8
+  __CPROVER_assume(i >= NA && (VARIADIC || i == NA));      /* a well-formed call: the arity error paths are OP 7's subject */
+#endif
   __CPROVER_assume(i >= 0 && i <= 3 && fp0 >= 0 && fp0 < 1000 && ipoff >= 8 && ipoff <= 32 && (ipoff & 7) == 0);
   for (int m = 0; m < 3; m++) if (m < i) stack[base + (i - 1 - m)] = arg[m];          /* argument m sits at top-2-m */
   top = base + i;
@@ -161,6 +170,45 @@ void harness(void) {
     KIT_ASSERT(rest == SEXP_NULL, "and nothing else");
 #elif VARIADIC
     for (int m = 0; m < 3; m++) if (m < i) KIT_ASSERT(stack[P-1-m] == arg[m], "with an unused rest parameter the arguments stay in place");
+#endif
+#if OP == 8
+    /* the callee's lambda: NA parameter names, a rest name if variadic, NLOC internal definitions; locals live
+       right above the frame header */
+    sexp pname[3] = { kit_symbol(1), kit_symbol(1), kit_symbol(1) }, rname = kit_symbol(1), lname[2] = { kit_symbol(1), kit_symbol(1) };
+    sexp lam = kit_alloc_tagged(sexp_sizeof(lambda), SEXP_LAMBDA);
+    sexp params = VARIADIC ? rname : SEXP_NULL;
+    for (int m = 2; m >= 0; m--) if (m < NA) params = kit_pair(pname[m], params);
+    sexp locals = SEXP_NULL;
+    for (int m = 1; m >= 0; m--) if (m < NLOC) locals = kit_pair(lname[m], locals);
+    sexp_lambda_params(lam) = params; sexp_lambda_locals(lam) = locals;
+    sexp lval[2] = { kit_flonum(11.0), kit_flonum(12.0) };
+    for (int m = 0; m < 2; m++) if (m < NLOC) stack[top++] = lval[m];
+    sexp *code = (sexp *)sexp_bytecode_data(callee_bc);
+    sexp_sint_t top1 = top;
+    for (int m = 0; m < 3 + 1 + 2; m++) {
+      sexp name; sexp expect;
+      if (m < 3) { if (m >= NA) continue; name = pname[m]; expect = arg[m]; }
+      else if (m == 3) { if (!(VARIADIC && !UNUSED_REST)) continue; name = rname; expect = stack[P-1-NA]; }
+      else { if (m - 4 >= NLOC) continue; name = lname[m-4]; expect = lval[m-4]; }
+      int idx = sexp_param_index(ctx, lam, name);
+      ((sexp_sint_t *)code)[1] = idx;
+      ip = (unsigned char *)&code[1];
+      ex = vm_slice_LOCAL_REF(ctx, &self, stack, &top, &fp, &ip, &cp, &bc, &tmp1, &iout);
+      KIT_ASSERT(ex == VM_EXIT_NEXT && top == top1 + 1 && stack[top-1] == expect, "a variable reference compiled with sexp_param_index reads the slot where the call sequence put that variable");
+      /* assignment through the same index writes that slot and no other */
+      sexp nv = kit_flonum(77.0);
+      stack[top-1] = nv;
+      ip = (unsigned char *)&code[1];
+      ex = vm_slice_LOCAL_SET(ctx, &self, stack, &top, &fp, &ip, &cp, &bc, &tmp1, &iout);
+      KIT_ASSERT(ex == VM_EXIT_NEXT && top == top1, "set! pops its operand");
+      for (int q = 0; q < 20; q++) if (q < top1) {
+        int is_slot = (m < 3) ? q == P-1-m : (m == 3) ? q == P-1-NA : q == P+4+(m-4);
+        if (is_slot) KIT_ASSERT(stack[q] == nv, "set! stores into the variable's slot");
+      }
+      KIT_ASSERT(stack[P] == sexp_make_fixnum(nargs) && stack[P+2] == cur && stack[P+3] == sexp_make_fixnum(fp0), "and leaves the frame header alone");
+      /* restore for the next variable */
+      if (m < 3) stack[P-1-m] = arg[m]; else if (m == 3) stack[P-1-NA] = expect; else stack[P+4+(m-4)] = lval[m-4];
+    }
 #endif
   }
 #endif
